@@ -81,6 +81,8 @@ static void mk(U256 *a, U256 *b, int k) {
     T128(or_si128, _mm_or_si128(a128, b128)) \
     T128(set1_epi16, _mm_and_si128(a128, _mm_set1_epi16(0x00FF))) \
     T128(storeu_si128, ld_st_128(a128)) \
+    T128(extractf128_1, _mm256_extractf128_si256(a, 1)) \
+    T128(extractf128_0, _mm256_extractf128_si256(a, 0)) \
     T128(extracti128_0, _mm256_extracti128_si256(a, 0)) \
     T128(extracti128_1, _mm256_extracti128_si256(a, 1)) \
     T128(castsi256_si128, _mm256_castsi256_si128(a)) \
